@@ -3,7 +3,6 @@ package c06
 import (
 	"errors"
 	"fmt"
-	"math/big"
 
 	"github.com/nspcc-dev/neo-go/pkg/core/block"
 	"github.com/nspcc-dev/neo-go/pkg/core/fee"
@@ -59,6 +58,8 @@ type world struct {
 	Braw  []byte
 	B2    *block.Block
 	B2raw []byte
+
+	okAtN map[util.Uint256]bool // crafted txs admitted alone by the builder at N
 
 	twins map[int]*twinSnap
 }
@@ -309,11 +310,15 @@ func buildWorld(c Case) (*world, error) {
 		w.cTother = w.craft(w.q, w.p.Hash, 0xC0610006, N+1, conflictsAttr(w.cV.Hash()), -1, -1, 0)
 	}
 	w.onchainRev = w.craft(w.p, w.q.Hash, 0xC0610007, N+1, conflictsAttr(w.histTxs[len(w.histTxs)-1].Hash()), -1, -1, 0)
-	big6 := new(big.Int).Div(new(big.Int).Mul(big.NewInt(w.balP), big.NewInt(6)), big.NewInt(10)).Int64()
+	big6 := w.balP / 10 * 6
 	w.over1 = w.craft(w.p, w.q.Hash, 0xC0610008, N+1, nil, big6, -1, 0)
 	w.over2 = w.craft(w.p, w.q.Hash, 0xC0610009, N+1, nil, big6, -1, 0)
 	w.under = w.craft(w.p, w.q.Hash, 0xC061000A, N+1, nil, w.balP+1, -1, 0)
 	w.extraOK = w.craft(w.q, w.p.Hash, 0xC061000B, N+1, nil, -1, -1, 0)
+	w.okAtN = map[util.Uint256]bool{}
+	for _, tx := range []*transaction.Transaction{w.cV, w.cTlow, w.cThigh, w.cTother, w.extraOK} {
+		w.okAtN[tx.Hash()] = w.validAlone(tx)
+	}
 	// ---- B and B2 ----
 	if w.Braw, w.B, err = b.BuildBlock(c.Next); err != nil {
 		return nil, fmt.Errorf("next block: %v", err)
